@@ -200,7 +200,7 @@ def main(run):
                        "option values and tokens <= 65804 bytes, option numbers <= 65535"]
     run.prove()
     model = vlib.build_model()
-    drv = vlib.build_driver("h_edit", ["h_edit.c"])
+    drv = vlib.build_driver("h_edit", ["h_edit.c"], wraps=["coap_realloc_type"])
     if getattr(run, "replay", None):
         lines = [l[6:].strip() for l in open(run.replay) if l.startswith("case: ")] or \
             [l.strip() for l in open(run.replay) if l.startswith("c04 ")]
@@ -354,7 +354,7 @@ def main(run):
                           tag="coqchk", no_input=True)
         # the same generated cases under ASan+UBSan (library instrumented): a wrong memmove length or
         # a stale pointer after realloc traps even where the bytes happen to come out right
-        adrv = vlib.build_driver("h_edit", ["h_edit.c"], variant="asan")
+        adrv = vlib.build_driver("h_edit", ["h_edit.c"], variant="asan", wraps=["coap_realloc_type"])
         sub = cases[:nsw]
         oa, cra = vlib.run_lines_robust(adrv, sub, env={"ASAN_OPTIONS": "detect_leaks=0:abort_on_error=0"})
         nd = 0
